@@ -1,4 +1,5 @@
 //! What the oracles see of one successfully executed operation.
+use chewing::conversion::Interval;
 use chewing::editor::keyboard::KeyEvent;
 
 pub struct Step<'a> {
@@ -21,6 +22,25 @@ pub struct Step<'a> {
     /// the candidate list as the getters report it before / after (None = no list open), see `CandView`
     pub cand_pre: Option<&'a CandView>,
     pub cand_post: Option<&'a CandView>,
+    /// C01: how the operation ended: "ok" | "panic" | "hang" (for "panic"/"hang" `post`/`dict_post` repeat the pre-state and `ret` is "panic")
+    pub outcome: &'a str,
+    /// C01: `Some(description)` iff in the PRE-state some buffered syllable has no one-syllable word under a
+    /// lookup strategy in force (the option's, the engine's own, an open phrase selector's)
+    pub no_word_pre: Option<&'a str>,
+    /// C01: the same predicate on the POST-state (only computed after a successful operation)
+    pub no_word_post: Option<&'a str>,
+    /// C01: the first read-only accessor that panicked / hung on the post-state: (name, "panic" | "hang")
+    pub getter_fail: Option<(&'a str, &'a str)>,
+    /// `display()` immediately before / after the operation (`None` = the getter panicked)
+    pub display_pre: Option<&'a str>,
+    pub display_post: Option<&'a str>,
+    /// `len()` (symbols in the pre-edit) before / after
+    pub len_pre: usize,
+    pub len_post: usize,
+    /// `display_commit()` after the operation
+    pub commit_post: &'a str,
+    /// every conversion call made DURING the operation: (engine kind, composition asked about, all alternatives)
+    pub conv: &'a [(u8, String, Vec<Vec<Interval>>)],
 }
 
 impl Step<'_> {
